@@ -160,16 +160,21 @@ def build_lib(variant="plain", quiet=True):
                 raise BuildError("link failed\n" + r.stderr[-4000:])
             os.replace(lib + ".tmp", lib)
             _prune(os.path.join(CACHE, "lib"), variant, keep=ldir)
+        else:
+            os.utime(ldir, None)
         return lib
     finally:
         lk.close()
 
 
-def _prune(libroot, variant, keep):
+def _prune(libroot, variant, keep, nkeep=8):
+    """keep the nkeep most recently used libraries of a variant (several trees may be under test at once:
+    /repo itself and scratch worktrees selected with VERIF_REPO)"""
     import shutil
-    for d in glob.glob(os.path.join(libroot, variant + "-*")):
-        if d != keep:
-            shutil.rmtree(d, ignore_errors=True)
+    ds = [d for d in glob.glob(os.path.join(libroot, variant + "-*")) if d != keep]
+    ds.sort(key=lambda d: os.stat(d).st_mtime, reverse=True)
+    for d in ds[nkeep - 1:]:
+        shutil.rmtree(d, ignore_errors=True)
 
 
 def build_harness(name, sources, variant="plain", extra=(), link_lib=True, libs=()):
@@ -194,12 +199,15 @@ def build_harness(name, sources, variant="plain", extra=(), link_lib=True, libs=
             if r.returncode != 0:
                 raise BuildError("harness link failed: %s\n%s" % (name, r.stderr[-4000:]))
             os.replace(exe + ".tmp", exe)
-            for old in glob.glob(os.path.join(bdir, name + ".*")):
-                if old != exe and not old.endswith(".tmp"):
-                    try:
-                        os.remove(old)
-                    except OSError:
-                        pass
+            olds = [o for o in glob.glob(os.path.join(bdir, name + ".*")) if o != exe and ".tmp" not in o]
+            olds.sort(key=lambda o: os.stat(o).st_mtime, reverse=True)
+            for old in olds[7:]:
+                try:
+                    os.remove(old)
+                except OSError:
+                    pass
+        else:
+            os.utime(exe, None)
         return exe
     finally:
         lk.close()
